@@ -4,6 +4,7 @@ import (
 	"bytes"
 	"fmt"
 	"io"
+	"net"
 	"net/http"
 	"net/http/httptest"
 	"os"
@@ -16,6 +17,7 @@ import (
 
 	"github.com/openebs/jiva/backend/remote"
 	"github.com/openebs/jiva/controller"
+	"github.com/openebs/jiva/rpc"
 	"github.com/openebs/jiva/types"
 	"github.com/sirupsen/logrus"
 
@@ -44,6 +46,7 @@ type Cfg struct {
 	WBlocks      []int    `json:"wblocks"`                 // blocks the Wb event may write
 	ViaREST      bool     `json:"via_rest,omitempty"`      // management events go through controller/client -> controller/rest (api.go)
 	MaxReverts   int      `json:"max_reverts,omitempty"`   // volume reverts per path (0 = 1)
+	ViaRPC       bool     `json:"via_rpc,omitempty"`       // every backend's data path is the real rpc.Client -> loopback TCP -> rpc.Server -> node
 	UnmapAnytime bool     `json:"unmap_anytime,omitempty"` // UnB is also enabled while a replica is rebuilding
 }
 
@@ -157,6 +160,7 @@ type cluster struct {
 	nTicks         int
 	nReverts       int
 	nUnmaps        int
+	conns          []net.Conn   // rpc connections of this execution (ViaRPC)
 	undone         map[int]bool // write id -> undone by a volume revert to a snapshot taken before it
 	goodSnaps      []goodSnap   // volume snapshots that were reported successful
 	failFold       bool
@@ -341,7 +345,21 @@ func (f factory) Create(address string) (types.Backend, error) {
 		return nil, fmt.Errorf("dial tcp %s: no route to host", address)
 	}
 	b := &be{seq: len(cl.bes), node: n}
-	r := remote.NewForVerif(address, ip(n)+":9502", nodeIOs{cl, b})
+	var r *remote.Remote
+	if cl.cfg.ViaRPC {
+		// the data path of production: real rpc.Client -> loopback TCP -> real rpc.Server -> the node's data calls
+		cc, sc, err := tcpPair()
+		if err != nil {
+			return nil, err
+		}
+		cl.conns = append(cl.conns, cc, sc)
+		srv := rpc.NewServer(sc, rpcData{nodeIOs{cl, b}})
+		go srv.Handle()
+		r = remote.NewForVerifRPC(address, ip(n)+":9502", cc)
+		cl.cnt["rpc_backends"]++
+	} else {
+		r = remote.NewForVerif(address, ip(n)+":9502", nodeIOs{cl, b})
+	}
 	if err := r.VerifAttach(); err != nil {
 		return nil, err
 	}
@@ -350,6 +368,26 @@ func (f factory) Create(address string) (types.Backend, error) {
 	cl.bes = append(cl.bes, b)
 	cl.attachAt[b.seq] = cl.nWrites
 	return r, nil
+}
+
+// rpcData makes a node's data calls the data processor of the real rpc server.
+type rpcData struct{ nodeIOs }
+
+func (rpcData) PingResponse() error { return nil }
+
+func tcpPair() (net.Conn, net.Conn, error) {
+	l, err := net.Listen("tcp", "127.0.0.1:0")
+	if err != nil {
+		return nil, nil, err
+	}
+	defer l.Close()
+	acc := make(chan net.Conn, 1)
+	go func() { c, _ := l.Accept(); acc <- c }()
+	cc, err := net.Dial("tcp", l.Addr().String())
+	if err != nil {
+		return nil, nil, err
+	}
+	return cc, <-acc, nil
 }
 
 func (f factory) SignalToAdd(address, action string) error {
@@ -469,6 +507,10 @@ func gateName(req *http.Request) string {
 }
 
 func (cl *cluster) destroy() {
+	for _, c := range cl.conns {
+		c.Close()
+	}
+	cl.conns = nil
 	cl.killTask(cl.task)
 	cl.killTask(cl.taskX)
 	for _, t := range cl.adds {
